@@ -23,6 +23,8 @@ def run(ctx):
     ctx.guard(siblings, ctx)
     ctx.guard(order, ctx)
     ctx.guard(nav, ctx)
+    from . import linkedset
+    ctx.guard(linkedset.check, ctx, 'C09-SETS')
     ctx.assume('equality of a result with the relational evaluation of a concrete model state is a runtime quantity and is not decided')
     ctx.assume('OrderedSet behaves as an insertion-ordered set (C17, not claimed)')
     return ('Abstract tables of apply_query_operators (operator kind -> stage) and WhereEqual (per-component match flags -> yield); '
